@@ -8,7 +8,7 @@ TECHNIQUE = ("runtime monitoring with fault injection: cause x state x position 
              "source-free sys.monitoring failpoints inside the block encoders; sha256 of the file around every raising call")
 RULE = ("causes {duplicate type, table full, label too long / non-cp1252 at first/middle/last item (each of the three "
         "strings for optical channels), comment too long (256/257/300) / non-cp1252, unsupported format of 5 kinds, wrong "
-        "object (None/str/track/fake), remove/replace of an absent type, unused slot between live blocks} x via "
+        "object (None/str/track/fake/duck-typed wrapper of a real block), a block assigned through the convenience property of another type, remove/replace of an absent type, unused slot between live blocks} x via "
         "{add, replace, setter} x every state reached by depth<=2 prefixes on N in {1,2,3} + random deep states on N<=14, "
         "each followed by a 3-op valid continuation checked against the reference model; plus an injected encoder "
         "exception at every k-th statement of the block's _write / nBytes (deterministic per invocation); a case = "
@@ -16,7 +16,7 @@ RULE = ("causes {duplicate type, table full, label too long / non-cp1252 at firs
         "distinct (cause, abstract state) pairs are counted")
 ASSUMPTIONS = ["an injected fault models a deterministic property of the request (it recurs on every encode of that block)",
                "for files with an unused slot between live blocks only add, setter-add and replace of a block before the hole are judged"]
-REQUIRED = {t: ["oracle:C07.rejected-leaves-file", "oracle:C07.refusal-propagates-out-of-the-context", "c07:cause:duplicate-type", "c07:cause:table-full",
+REQUIRED = {t: ["op:block-assigned-through-the-property-of-another-type", "oracle:C07.rejected-leaves-file", "oracle:C07.refusal-propagates-out-of-the-context", "c07:cause:duplicate-type", "c07:cause:table-full",
                 "c07:cause:label-too-long", "c07:cause:label-non-cp1252", "c07:cause:comment-too-long",
                 "c07:cause:comment-non-cp1252", "c07:cause:unsupported-format", "c07:cause:wrong-object",
                 "c07:cause:remove-absent", "c07:cause:replace-absent", "c07:cause:unused-slot-between-live-blocks",
